@@ -68,6 +68,13 @@ Section Inverse.
 End Inverse.
 
 (* ---------------------------------------------------------------- IntRNSsystem objects *)
+Definition RnsToRing_int_h (hr : bool) (ps rs : list Z) : Z :=
+  MixedRadixToRing ps (RnsToMixedRadix_int_h hr ps (ComputeCk_int ps) rs).
+
+(* the facts about the source as they are in /repo (read by the check on every run); the first digit reduced or not *)
+Definition imembers_all : list imember := [IMprimes; IMprod; IMck].
+Definition isrc_repo (hr : bool) : isrc := mkIsrc FromCk CkEmpty imembers_all hr.
+
 (* invariant of the caches: each holds the value ComputeCk / ComputeProd compute for the primes of the object
    (for an object without primes: the empty table and the empty product 1) *)
 Definition int_wf (S : IntRNS) : Prop :=
@@ -101,21 +108,26 @@ Qed.
 Lemma int_mk_wf : forall ps, int_wf (int_mk ps) /\ i_primes (int_mk ps) = ps.
 Proof. exact int_mk_tt_wf. Qed.
 
-Lemma int_RnsToMixedRadix_spec : forall S rs, int_wf S ->
-  int_wf (fst (int_RnsToMixedRadix S rs)) /\ i_primes (fst (int_RnsToMixedRadix S rs)) = i_primes S /\
-  snd (int_RnsToMixedRadix S rs) = RnsToMixedRadix_int (i_primes S) (ComputeCk_int (i_primes S)) rs.
+Lemma int_assign_all : forall d s, int_assign imembers_all d s = s.
+Proof. intros d [p q c]. reflexivity. Qed.
+
+Lemma int_RnsToMixedRadix_spec : forall hr S rs, int_wf S ->
+  int_wf (fst (int_RnsToMixedRadix hr S rs)) /\ i_primes (fst (int_RnsToMixedRadix hr S rs)) = i_primes S /\
+  snd (int_RnsToMixedRadix hr S rs) =
+    if enough (i_primes S) rs then Some (RnsToMixedRadix_int_h hr (i_primes S) (ComputeCk_int (i_primes S)) rs) else None.
 Proof.
-  intros S rs [Hc Hp]. unfold int_RnsToMixedRadix. cbn [fst snd].
+  intros hr S rs [Hc Hp]. unfold int_RnsToMixedRadix. cbn [fst snd].
   destruct (int_ensure_ck_spec S (or_intror Hc)) as (C & P & Q). unfold int_wf. rewrite P, C, Q. auto.
 Qed.
 
-Lemma int_RnsToRing_spec : forall S rs, int_wf S ->
-  int_wf (fst (int_RnsToRing S rs)) /\ i_primes (fst (int_RnsToRing S rs)) = i_primes S /\
-  snd (int_RnsToRing S rs) = RnsToRing_int (i_primes S) rs.
+Lemma int_RnsToRing_spec : forall hr S rs, int_wf S ->
+  int_wf (fst (int_RnsToRing hr S rs)) /\ i_primes (fst (int_RnsToRing hr S rs)) = i_primes S /\
+  snd (int_RnsToRing hr S rs) = if enough (i_primes S) rs then Some (RnsToRing_int_h hr (i_primes S) rs) else None.
 Proof.
-  intros S rs H. unfold int_RnsToRing.
-  destruct (int_RnsToMixedRadix_spec S rs H) as (W & P & M).
-  destruct (int_RnsToMixedRadix S rs) as [S' mix]. cbn [fst snd] in *. rewrite P, M. auto.
+  intros hr S rs H. unfold int_RnsToRing.
+  destruct (int_RnsToMixedRadix_spec hr S rs H) as (W & P & M).
+  destruct (int_RnsToMixedRadix hr S rs) as [S' mix]. cbn [fst snd] in *. rewrite P, M.
+  destruct (enough (i_primes S) rs); auto.
 Qed.
 
 Lemma int_product_spec : forall S, int_wf S ->
@@ -134,23 +146,23 @@ Inductive iexp : Type :=
   | Imktt (ps : list Z)               (* the templated converting constructor IntRNSsystem(const Container<TT,Alloc<TT>>&) *)
   | Idefault                          (* IntRNSsystem() *)
   | Icopy (e : iexp)                  (* IntRNSsystem(const IntRNSsystem&) *)
-  | Iassign (dst src : iexp)          (* operator= *)
+  | Iassign (dst src : iexp)          (* operator= : member by member, onto ANY earlier object dst *)
   | Imix (e : iexp) (rs : list Z)     (* the object after RnsToMixedRadix(rs) *)
   | Irns (e : iexp) (rs : list Z)     (* the object after RnsToRing(rs) *)
   | Iprod (e : iexp)                  (* the object after product() *)
   | Irecip (e : iexp).                (* the object after Reciprocals() / reciprocal(i) *)
 
-Fixpoint ieval (src : cksrc) (ci : ckinit) (e : iexp) : IntRNS :=
+Fixpoint ieval (f : isrc) (e : iexp) : IntRNS :=
   match e with
   | Imk ps => int_mk ps
-  | Imktt ps => int_mk_tt ci ps
+  | Imktt ps => int_mk_tt (is_tt f) ps
   | Idefault => int_default
-  | Icopy e => int_copy src (ieval src ci e)
-  | Iassign d s => int_assign (ieval src ci d) (ieval src ci s)
-  | Imix e rs => fst (int_RnsToMixedRadix (ieval src ci e) rs)
-  | Irns e rs => fst (int_RnsToRing (ieval src ci e) rs)
-  | Iprod e => fst (int_product (ieval src ci e))
-  | Irecip e => fst (int_Reciprocals (ieval src ci e))
+  | Icopy e => int_copy (is_copy f) (ieval f e)
+  | Iassign d s => int_assign (is_assign f) (ieval f d) (ieval f s)
+  | Imix e rs => fst (int_RnsToMixedRadix (is_head f) (ieval f e) rs)
+  | Irns e rs => fst (int_RnsToRing (is_head f) (ieval f e) rs)
+  | Iprod e => fst (int_product (ieval f e))
+  | Irecip e => fst (int_Reciprocals (ieval f e))
   end.
 
 (* the moduli the object is meant to stand for *)
@@ -163,37 +175,39 @@ Fixpoint iprimes (e : iexp) : list Z :=
   | Imix e _ | Irns e _ | Iprod e | Irecip e => iprimes e
   end.
 
-Lemma ieval_wf : forall e, int_wf (ieval FromCk CkEmpty e) /\ i_primes (ieval FromCk CkEmpty e) = iprimes e.
+Lemma ieval_wf : forall hr e, int_wf (ieval (isrc_repo hr) e) /\ i_primes (ieval (isrc_repo hr) e) = iprimes e.
 Proof.
-  induction e as [ps|ps| |e IH|d IHd s IHs|e IH rs|e IH rs|e IH|e IH]; cbn [ieval iprimes].
+  intros hr. induction e as [ps|ps| |e IH|d IHd s IHs|e IH rs|e IH rs|e IH|e IH]; cbn [ieval iprimes isrc_repo is_copy is_tt is_assign is_head].
   - apply int_mk_wf.
   - apply int_mk_tt_wf.
   - split; [split; reflexivity|reflexivity].
   - destruct IH as [W P]. unfold int_copy. split; [exact W|exact P].
-  - exact IHs.
-  - destruct IH as [W P]. destruct (int_RnsToMixedRadix_spec _ rs W) as (W' & P' & _). split; [exact W'|congruence].
-  - destruct IH as [W P]. destruct (int_RnsToRing_spec _ rs W) as (W' & P' & _). split; [exact W'|congruence].
+  - rewrite int_assign_all. exact IHs.
+  - destruct IH as [W P]. destruct (int_RnsToMixedRadix_spec hr _ rs W) as (W' & P' & _). split; [exact W'|congruence].
+  - destruct IH as [W P]. destruct (int_RnsToRing_spec hr _ rs W) as (W' & P' & _). split; [exact W'|congruence].
   - destruct IH as [W P]. destruct (int_product_spec _ W) as (W' & P' & _). split; [exact W'|congruence].
   - destruct IH as [W P]. destruct (int_Reciprocals_spec _ W) as (W' & P' & _). split; [exact W'|congruence].
 Qed.
 
-(* the histories of the correspondence run are instances *)
+(* every history of the correspondence run (all 15 names of the harness) is an instance *)
 Definition hexp (tt : bool) (h : hist) (primes other : list Z) : iexp :=
   let mk := if tt then Imktt else Imk in
-  let warm e := Iprod (Irns e (ones (length (iprimes e)))) in
+  let use ps e := Irns e (ones (length ps)) in
+  let warm ps e := Iprod (use ps e) in
   match h with
   | Hfresh => mk primes
-  | Hreuse => Irns (mk primes) (ones (length primes))
+  | Hreuse => use primes (mk primes)
   | Hcopycold => Icopy (mk primes)
-  | Hcopywarm => Icopy (warm (mk primes))
-  | Hcopy2 => Icopy (Icopy (Irns (mk primes) (ones (length primes))))
+  | Hcopywarm | Hcopymod => Icopy (warm primes (mk primes))
+  | Hcopy2 => Icopy (Icopy (use primes (mk primes)))
   | Hassigncold => Iassign Idefault (mk primes)
-  | Hassignwarm => Iassign (warm (Imk other)) (warm (mk primes))
-  | Hsetcold | Hsetwarm => mk primes
+  | Hassignwarm | Hassignsame => Iassign (warm other (Imk other)) (warm primes (mk primes))
+  | Hassigncc => Iassign (Irecip (warm other (Imk other))) (mk primes)
+  | Hsetcold | Hsetwarm | Hsetsame | Hsetback | Hdfltcopyset => mk primes
   end.
-Lemma int_obtain_hexp : forall src ci (tt : bool) h primes other,
-  int_obtain src (if tt then int_mk_tt ci else int_mk) h primes other = ieval src ci (hexp tt h primes other).
-Proof. intros src ci tt h primes other. destruct tt, h; reflexivity. Qed.
+Lemma int_obtain_hexp : forall f (tt : bool) h primes other,
+  int_obtain f (if tt then int_mk_tt (is_tt f) else int_mk) h primes other = ieval f (hexp tt h primes other).
+Proof. intros f tt h primes other. destruct tt, h; reflexivity. Qed.
 
 (* ---------------------------------------------------------------- RNSsystem<RING,Domain> objects *)
 Definition dom_wf (S : DomRNS) : Prop := d_ck S = ComputeCk_dom (d_primes S).
@@ -212,9 +226,18 @@ Proof.
   intros ps. unfold dom_mk. destruct (dom_ensure_ck_spec (mkDomRNS ps [])) as (W & P & _); [left; reflexivity|]. auto.
 Qed.
 
+(* the statement list of setPrimes as it is in /repo builds, from ANY object, what the constructor builds *)
+Lemma dom_setPrimes_repo : forall S ps, dom_setPrimes set_prog_repo S ps = dom_mk ps.
+Proof. intros [p c] ps. reflexivity. Qed.
+Lemma dom_copy_all : forall R, dom_copy dmembers_all R = R.
+Proof. intros [p c]. reflexivity. Qed.
+Lemma dom_assign_all : forall d s, dom_assign dmembers_all d s = s.
+Proof. intros d [p c]. reflexivity. Qed.
+
 Lemma dom_RnsToMixedRadix_spec : forall S rs, dom_wf S ->
   dom_wf (fst (dom_RnsToMixedRadix S rs)) /\ d_primes (fst (dom_RnsToMixedRadix S rs)) = d_primes S /\
-  snd (dom_RnsToMixedRadix S rs) = RnsToMixedRadix_dom (d_primes S) (ComputeCk_dom (d_primes S)) rs.
+  snd (dom_RnsToMixedRadix S rs) =
+    if enough (d_primes S) rs then Some (RnsToMixedRadix_dom (d_primes S) (ComputeCk_dom (d_primes S)) rs) else None.
 Proof.
   intros S rs H. unfold dom_RnsToMixedRadix. cbn [fst snd].
   destruct (dom_ensure_ck_spec S (or_intror H)) as (W & P & C). rewrite P, C. auto.
@@ -222,11 +245,12 @@ Qed.
 
 Lemma dom_RnsToRing_spec : forall S rs, dom_wf S ->
   dom_wf (fst (dom_RnsToRing S rs)) /\ d_primes (fst (dom_RnsToRing S rs)) = d_primes S /\
-  snd (dom_RnsToRing S rs) = RnsToRing_dom (d_primes S) rs.
+  snd (dom_RnsToRing S rs) = if enough (d_primes S) rs then Some (RnsToRing_dom (d_primes S) rs) else None.
 Proof.
   intros S rs H. unfold dom_RnsToRing.
   destruct (dom_RnsToMixedRadix_spec S rs H) as (W & P & M).
-  destruct (dom_RnsToMixedRadix S rs) as [S' mix]. cbn [fst snd] in *. rewrite P, M. auto.
+  destruct (dom_RnsToMixedRadix S rs) as [S' mix]. cbn [fst snd] in *. rewrite P, M.
+  destruct (enough (d_primes S) rs); auto.
 Qed.
 
 Lemma dom_Reciprocals_spec : forall S, dom_wf S ->
@@ -238,22 +262,22 @@ Inductive dexp : Type :=
   | Dmk (ps : list Z)                 (* RNSsystem(domains) *)
   | Ddefault                          (* RNSsystem() *)
   | Dcopy (e : dexp)                  (* RNSsystem(const Self_t&) *)
-  | Dassign (dst src : dexp)          (* operator= *)
-  | Dset (e : dexp) (ps : list Z)     (* setPrimes(domains) on an existing object *)
+  | Dassign (dst src : dexp)          (* operator= : member by member, onto ANY earlier object dst *)
+  | Dset (e : dexp) (ps : list Z)     (* setPrimes(domains) on ANY earlier object e, statement by statement *)
   | Dmix (e : dexp) (rs : list Z)
   | Drns (e : dexp) (rs : list Z)
   | Drecip (e : dexp).
 
-Fixpoint deval (e : dexp) : DomRNS :=
+Fixpoint deval (f : dsrc) (e : dexp) : DomRNS :=
   match e with
   | Dmk ps => dom_mk ps
   | Ddefault => dom_default
-  | Dcopy e => dom_copy (deval e)
-  | Dassign d s => dom_assign (deval d) (deval s)
-  | Dset e ps => dom_setPrimes (deval e) ps
-  | Dmix e rs => fst (dom_RnsToMixedRadix (deval e) rs)
-  | Drns e rs => fst (dom_RnsToRing (deval e) rs)
-  | Drecip e => fst (dom_Reciprocals (deval e))
+  | Dcopy e => dom_copy (ds_copy f) (deval f e)
+  | Dassign d s => dom_assign (ds_assign f) (deval f d) (deval f s)
+  | Dset e ps => dom_setPrimes (ds_set f) (deval f e) ps
+  | Dmix e rs => fst (dom_RnsToMixedRadix (deval f e) rs)
+  | Drns e rs => fst (dom_RnsToRing (deval f e) rs)
+  | Drecip e => fst (dom_Reciprocals (deval f e))
   end.
 
 Fixpoint dprimes (e : dexp) : list Z :=
@@ -266,34 +290,37 @@ Fixpoint dprimes (e : dexp) : list Z :=
   | Dmix e _ | Drns e _ | Drecip e => dprimes e
   end.
 
-Lemma deval_wf : forall e, dom_wf (deval e) /\ d_primes (deval e) = dprimes e.
+Lemma deval_wf : forall e, dom_wf (deval dsrc_repo e) /\ d_primes (deval dsrc_repo e) = dprimes e.
 Proof.
-  induction e as [ps| |e IH|d IHd s IHs|e IH ps|e IH rs|e IH rs|e IH]; cbn [deval dprimes].
+  induction e as [ps| |e IH|d IHd s IHs|e IH ps|e IH rs|e IH rs|e IH]; cbn [deval dprimes dsrc_repo ds_copy ds_assign ds_set].
   - apply dom_mk_wf.
   - split; reflexivity.
-  - destruct IH as [W P]. unfold dom_copy, dom_wf in *. cbn [d_ck d_primes]. split; [exact W|exact P].
-  - exact IHs.
-  - apply dom_mk_wf.
+  - rewrite dom_copy_all. exact IH.
+  - rewrite dom_assign_all. exact IHs.
+  - rewrite dom_setPrimes_repo. apply dom_mk_wf.
   - destruct IH as [W P]. destruct (dom_RnsToMixedRadix_spec _ rs W) as (W' & P' & _). split; [exact W'|congruence].
   - destruct IH as [W P]. destruct (dom_RnsToRing_spec _ rs W) as (W' & P' & _). split; [exact W'|congruence].
   - destruct IH as [W P]. destruct (dom_Reciprocals_spec _ W) as (W' & P' & _). split; [exact W'|congruence].
 Qed.
 
 Definition hdexp (h : hist) (primes other : list Z) : dexp :=
-  let warm e := Drns e (ones (length (dprimes e))) in
+  let use ps e := Drns e (ones (length ps)) in
   match h with
   | Hfresh => Dmk primes
-  | Hreuse => warm (Dmk primes)
+  | Hreuse => use primes (Dmk primes)
   | Hcopycold => Dcopy (Dmk primes)
-  | Hcopywarm => Dcopy (warm (Dmk primes))
-  | Hcopy2 => Dcopy (Dcopy (warm (Dmk primes)))
+  | Hcopywarm | Hcopymod => Dcopy (use primes (Dmk primes))
+  | Hcopy2 => Dcopy (Dcopy (use primes (Dmk primes)))
   | Hassigncold => Dassign Ddefault (Dmk primes)
-  | Hassignwarm => Dassign (warm (Dmk other)) (warm (Dmk primes))
+  | Hassignwarm | Hassignsame => Dassign (use other (Dmk other)) (use primes (Dmk primes))
+  | Hassigncc => Dassign (Drecip (use other (Dmk other))) (Dmk primes)
   | Hsetcold => Dset Ddefault primes
-  | Hsetwarm => Dset (warm (Dmk other)) primes
+  | Hsetwarm | Hsetsame => Dset (use other (Dmk other)) primes
+  | Hsetback => Dset (Drecip (use other (Dset (use primes (Dmk primes)) other))) primes
+  | Hdfltcopyset => Dset (Dcopy Ddefault) primes
   end.
-Lemma dom_obtain_hdexp : forall h primes other, dom_obtain h primes other = deval (hdexp h primes other).
-Proof. intros h primes other. destruct h; reflexivity. Qed.
+Lemma dom_obtain_hdexp : forall f h primes other, dom_obtain f h primes other = deval f (hdexp h primes other).
+Proof. intros f h primes other. destruct h; reflexivity. Qed.
 
 (* ---------------------------------------------------------------- statements (closed in Properties.v) *)
 
@@ -403,28 +430,63 @@ Proof.
   - intros a. apply RingToRns_canonical. apply Hg.
 Qed.
 
-(* (5) the answers of a system object do not depend on how it was obtained *)
-Definition Int_history_stmt (src : cksrc) (ci : ckinit) : Prop :=
-  forall (e : iexp) (rs : list Z) (a : Z),
-  let S := ieval src ci e in
-  snd (int_RnsToMixedRadix S rs) = RnsToMixedRadix_int (iprimes e) (ComputeCk_int (iprimes e)) rs /\
-  snd (int_RnsToRing S rs) = RnsToRing_int (iprimes e) rs /\
-  snd (int_product S) = prodl (iprimes e) /\
-  snd (int_Reciprocals S) = ComputeCk_int (iprimes e) /\
-  int_RingToRns S a = RingToRns (iprimes e) a.
+(* (2b) ANY representatives as residues.  With the first digit reduced (mixrad[0] = residu[0] mod p_0, the repaired
+   body) the head hypothesis of Garner_stmt disappears; with the first residue copied as it comes (the body before the
+   repair) the unrestricted statement is false: moduli 3, 5, residues 18, 2 give the digits 18, 3 and the value 27. *)
+Definition Garner_any_stmt (R2M : list Z -> list Z -> list Z) : Prop :=
+  forall ps rs, ps <> [] -> good_moduli ps -> length rs = length ps ->
+  let mix := R2M ps rs in
+  let V := MixedRadixToRing ps mix in
+  length mix = length ps /\
+  Forall2 (fun m p => 0 <= m < p) mix ps /\
+  0 <= V < prodl ps /\
+  Forall2 (fun p r => V mod p = r mod p) ps rs.
 
-Lemma int_history : Int_history_stmt FromCk CkEmpty.
+Lemma garner_int_any : Garner_any_stmt (fun ps rs => RnsToMixedRadix_int_h true ps (ComputeCk_int ps) rs).
 Proof.
-  intros e rs a S. destruct (ieval_wf e) as [W P]. fold S in W, P.
-  destruct (int_RnsToMixedRadix_spec S rs W) as (_ & _ & E1).
-  destruct (int_RnsToRing_spec S rs W) as (_ & _ & E2).
+  intros [|p0 ps] rs Hne Hg Hl; [congruence|]. destruct rs as [|r0 rs]; [discriminate|].
+  unfold RnsToMixedRadix_int_h. cbn [reduce_head].
+  assert (Hp0 : 0 < p0) by (destruct Hg as [Hpos _]; inversion Hpos; assumption).
+  destruct (garner_int (p0 :: ps) (r0 mod p0 :: rs) Hne Hg Hl) as (L & D & R & C).
+  - cbn [hd]. apply Z.mod_pos_bound. exact Hp0.
+  - cbv zeta. split; [exact L|]. split; [exact D|]. split; [exact R|].
+    inversion C as [|? ? ? ? C0 C1]; subst. constructor; [|exact C1].
+    rewrite C0. apply Z.mod_mod. lia.
+Qed.
+
+Lemma garner_int_any_unreduced_refuted : ~ Garner_any_stmt (fun ps rs => RnsToMixedRadix_int_h false ps (ComputeCk_int ps) rs).
+Proof.
+  intro H. destruct (H [3; 5] [18; 2]) as (_ & _ & [_ R] & _); [discriminate| |reflexivity|].
+  - split; repeat constructor; lia.
+  - vm_compute in R. discriminate R.
+Qed.
+
+(* (5) the answers of a system object do not depend on how it was obtained.  `f` = the facts about the source (copy map,
+   converting constructor, members operator= assigns, first digit reduced); a conversion on an object without primes
+   or with too few residues has no answer (None), as in the code *)
+Definition Int_history_stmt (f : isrc) : Prop :=
+  forall (e : iexp) (rs : list Z) (a : Z),
+  let S := ieval f e in
+  let ps := iprimes e in
+  snd (int_RnsToMixedRadix (is_head f) S rs) =
+    (if enough ps rs then Some (RnsToMixedRadix_int_h (is_head f) ps (ComputeCk_int ps) rs) else None) /\
+  snd (int_RnsToRing (is_head f) S rs) = (if enough ps rs then Some (RnsToRing_int_h (is_head f) ps rs) else None) /\
+  snd (int_product S) = prodl ps /\
+  snd (int_Reciprocals S) = ComputeCk_int ps /\
+  int_RingToRns S a = RingToRns ps a.
+
+Lemma int_history : forall hr, Int_history_stmt (isrc_repo hr).
+Proof.
+  intros hr e rs a S ps. destruct (ieval_wf hr e) as [W P]. fold S in W, P. fold ps in P.
+  destruct (int_RnsToMixedRadix_spec hr S rs W) as (_ & _ & E1).
+  destruct (int_RnsToRing_spec hr S rs W) as (_ & _ & E2).
   destruct (int_product_spec S W) as (_ & _ & E3).
   destruct (int_Reciprocals_spec S W) as (_ & _ & E4).
-  rewrite E1, E2, E3, E4. unfold int_RingToRns. rewrite P. auto.
+  cbn [isrc_repo is_head]. rewrite E1, E2, E3, E4. unfold int_RingToRns. rewrite P. auto.
 Qed.
 
 (* the copy map of the unrepaired constructor, _ck(R._primes), does not have the property *)
-Lemma int_history_from_primes_refuted : ~ Int_history_stmt FromPrimes CkEmpty.
+Lemma int_history_from_primes_refuted : ~ Int_history_stmt (mkIsrc FromPrimes CkEmpty imembers_all false).
 Proof.
   intro H. destruct (H (Icopy (Imk [3; 5; 7])) [1; 2; 3] 0) as (_ & E & _).
   vm_compute in E. discriminate E.
@@ -432,33 +494,56 @@ Qed.
 
 (* a converting constructor that sizes _ck in its initialiser list (ComputeCk then sees a non-empty table of zeros
    and returns at once) does not have the property either: moduli 3, 5, 7 from a vector<int>, residues of 52 *)
-Lemma int_history_presized_refuted : ~ Int_history_stmt FromCk CkSized.
+Lemma int_history_presized_refuted : ~ Int_history_stmt (mkIsrc FromCk CkSized imembers_all false).
 Proof.
   intro H. destruct (H (Imktt [3; 5; 7]) [1; 2; 3] 0) as (_ & E & _).
   vm_compute in E. discriminate E.
 Qed.
 
-Definition Dom_history_stmt : Prop :=
-  forall (e : dexp) (rs : list Z) (a : Z),
-  let S := deval e in
-  snd (dom_RnsToMixedRadix S rs) = RnsToMixedRadix_dom (dprimes e) (ComputeCk_dom (dprimes e)) rs /\
-  snd (dom_RnsToRing S rs) = RnsToRing_dom (dprimes e) rs /\
-  snd (dom_Reciprocals S) = ComputeCk_dom (dprimes e) /\
-  dom_RingToRns S a = RingToRns (dprimes e) a.
-
-Lemma dom_history : Dom_history_stmt.
+(* an operator= that does not assign _ck does not have it: a used system on 11, 13, 17 assigned from one on 3, 5, 7 *)
+Lemma int_history_assign_without_ck_refuted : ~ Int_history_stmt (mkIsrc FromCk CkEmpty [IMprimes; IMprod] false).
 Proof.
-  intros e rs a S. destruct (deval_wf e) as [W P]. fold S in W, P.
+  intro H. destruct (H (Iassign (Imk [11; 13; 17]) (Imk [3; 5; 7])) [1; 2; 3] 0) as (_ & E & _).
+  vm_compute in E. discriminate E.
+Qed.
+
+Definition Dom_history_stmt (f : dsrc) : Prop :=
+  forall (e : dexp) (rs : list Z) (a : Z),
+  let S := deval f e in
+  let ps := dprimes e in
+  snd (dom_RnsToMixedRadix S rs) = (if enough ps rs then Some (RnsToMixedRadix_dom ps (ComputeCk_dom ps) rs) else None) /\
+  snd (dom_RnsToRing S rs) = (if enough ps rs then Some (RnsToRing_dom ps rs) else None) /\
+  snd (dom_Reciprocals S) = ComputeCk_dom ps /\
+  dom_RingToRns S a = RingToRns ps a.
+
+Lemma dom_history : Dom_history_stmt dsrc_repo.
+Proof.
+  intros e rs a S ps. destruct (deval_wf e) as [W P]. fold S in W, P. fold ps in P.
   destruct (dom_RnsToMixedRadix_spec S rs W) as (_ & _ & E1).
   destruct (dom_RnsToRing_spec S rs W) as (_ & _ & E2).
   destruct (dom_Reciprocals_spec S W) as (_ & _ & E4).
   rewrite E1, E2, E4. unfold dom_RingToRns. rewrite P. auto.
 Qed.
 
+(* setPrimes without `_ck.resize(0)` (the stale table survives ComputeCk's guard), and an operator= that assigns only
+   _primes, do not have the property *)
+Lemma dom_history_set_without_reset_refuted :
+  ~ Dom_history_stmt (mkDsrc dmembers_all dmembers_all [SAllocPrimes0; SCopyPrimes; SComputeCk]).
+Proof.
+  intro H. destruct (H (Dset (Dmk [11; 13; 17]) [3; 5; 7]) [1; 2; 3] 0) as (_ & E & _).
+  vm_compute in E. discriminate E.
+Qed.
+Lemma dom_history_assign_without_ck_refuted :
+  ~ Dom_history_stmt (mkDsrc dmembers_all [DMprimes] set_prog_repo).
+Proof.
+  intro H. destruct (H (Dassign (Dmk [11; 13; 17]) (Dmk [3; 5; 7])) [1; 2; 3] 0) as (_ & E & _).
+  vm_compute in E. discriminate E.
+Qed.
+
 (* (6) end to end: whatever the history, RnsToRing returns THE integer of [0, prod) with the given residues *)
 Definition Int_end_to_end_stmt : Prop :=
   forall (e : iexp) (rs : list Z), iprimes e <> [] -> good_moduli (iprimes e) -> canonical rs (iprimes e) ->
-  let V := snd (int_RnsToRing (ieval FromCk CkEmpty e) rs) in
+  exists V, snd (int_RnsToRing false (ieval (isrc_repo false) e) rs) = Some V /\
   0 <= V < prodl (iprimes e) /\ RingToRns (iprimes e) V = rs /\
   forall x, 0 <= x < prodl (iprimes e) -> RingToRns (iprimes e) x = rs -> x = V.
 
@@ -468,10 +553,18 @@ Proof.
   cbn [RingToRns map] in H. inversion H. constructor; [assumption|]. apply IH. assumption.
 Qed.
 
+Lemma enough_same_length : forall ps rs, ps <> [] -> length rs = length ps -> enough ps rs = true.
+Proof. intros [|p ps] rs Hne Hl; [congruence|]. unfold enough. rewrite Hl. apply Nat.leb_refl. Qed.
+
+Lemma RnsToRing_int_h_false : forall ps rs, RnsToRing_int_h false ps rs = RnsToRing_int ps rs.
+Proof. reflexivity. Qed.
+
 Lemma int_end_to_end : Int_end_to_end_stmt.
 Proof.
-  intros e rs Hne Hg Hc V.
-  destruct (int_history e rs 0) as (_ & E & _). unfold V. rewrite E.
+  intros e rs Hne Hg Hc.
+  destruct (int_history false e rs 0) as (_ & E & _). cbn [isrc_repo is_head] in E.
+  rewrite (enough_same_length _ _ Hne (canonical_length _ _ Hc)), RnsToRing_int_h_false in E.
+  exists (RnsToRing_int (iprimes e) rs). split; [exact E|].
   destruct (garner_int (iprimes e) rs Hne Hg (canonical_length _ _ Hc) (canonical_hd _ _ Hne Hc)) as (_ & _ & Hr & _).
   destruct (inverse_int (iprimes e) Hne Hg) as (I1 & _ & _).
   fold (RnsToRing_int (iprimes e) rs) in Hr.
@@ -480,22 +573,68 @@ Proof.
   apply RingToRns_eq_Forall. rewrite Hxr. symmetry. apply I1. exact Hc.
 Qed.
 
+(* the same for ANY representatives as residues, for the body that reduces the first digit *)
+Definition Int_end_to_end_any_stmt : Prop :=
+  forall (e : iexp) (rs : list Z), iprimes e <> [] -> good_moduli (iprimes e) -> length rs = length (iprimes e) ->
+  exists V, snd (int_RnsToRing true (ieval (isrc_repo true) e) rs) = Some V /\
+  0 <= V < prodl (iprimes e) /\ Forall2 (fun p r => V mod p = r mod p) (iprimes e) rs /\
+  forall x, 0 <= x < prodl (iprimes e) -> Forall2 (fun p r => x mod p = r mod p) (iprimes e) rs -> x = V.
+
+Lemma Forall2_cong_Forall : forall ps rs x y,
+  Forall2 (fun p r => x mod p = r mod p) ps rs -> Forall2 (fun p r => y mod p = r mod p) ps rs ->
+  Forall (fun p => x mod p = y mod p) ps.
+Proof.
+  intros ps rs x y H. induction H; intros H2; inversion H2; subst; constructor; [congruence|auto].
+Qed.
+
+Lemma int_end_to_end_any : Int_end_to_end_any_stmt.
+Proof.
+  intros e rs Hne Hg Hl.
+  destruct (int_history true e rs 0) as (_ & E & _). cbn [isrc_repo is_head] in E.
+  rewrite (enough_same_length _ _ Hne Hl) in E.
+  exists (RnsToRing_int_h true (iprimes e) rs). split; [exact E|].
+  destruct (garner_int_any (iprimes e) rs Hne Hg Hl) as (_ & _ & Hr & Hc).
+  fold (RnsToRing_int_h true (iprimes e) rs) in Hr, Hc.
+  split; [exact Hr|]. split; [exact Hc|].
+  intros x Hx Hxr. apply (unique (iprimes e)); auto.
+  eapply Forall2_cong_Forall; eassumption.
+Qed.
+
 Definition Dom_end_to_end_stmt : Prop :=
   forall (e : dexp) (rs : list Z), dprimes e <> [] -> good_moduli (dprimes e) -> canonical rs (dprimes e) ->
-  let V := snd (dom_RnsToRing (deval e) rs) in
+  exists V, snd (dom_RnsToRing (deval dsrc_repo e) rs) = Some V /\
   0 <= V < prodl (dprimes e) /\ RingToRns (dprimes e) V = rs /\
   forall x, 0 <= x < prodl (dprimes e) -> RingToRns (dprimes e) x = rs -> x = V.
 
 Lemma dom_end_to_end : Dom_end_to_end_stmt.
 Proof.
-  intros e rs Hne Hg Hc V.
-  destruct (dom_history e rs 0) as (_ & E & _). unfold V. rewrite E.
+  intros e rs Hne Hg Hc.
+  destruct (dom_history e rs 0) as (_ & E & _).
+  rewrite (enough_same_length _ _ Hne (canonical_length _ _ Hc)) in E.
+  exists (RnsToRing_dom (dprimes e) rs). split; [exact E|].
   destruct (garner_dom (dprimes e) rs Hne Hg (canonical_length _ _ Hc) (canonical_hd _ _ Hne Hc)) as (_ & _ & Hr & _).
   destruct (inverse_dom (dprimes e) Hne Hg) as (I1 & _ & _).
   fold (RnsToRing_dom (dprimes e) rs) in Hr.
   split; [exact Hr|]. split; [apply I1; exact Hc|].
   intros x Hx Hxr. apply (unique (dprimes e)); auto.
   apply RingToRns_eq_Forall. rewrite Hxr. symmetry. apply I1. exact Hc.
+Qed.
+
+(* (7) where the code has no answer the model has none: a system without primes, too few residues, and for
+   RNSsystem::MixedRadixToRing (which tests it) a digit array of another size *)
+Definition Undefined_stmt : Prop :=
+  (forall hr rs, snd (int_RnsToRing hr int_default rs) = None) /\
+  (forall rs, snd (dom_RnsToRing dom_default rs) = None) /\
+  (forall mix, dom_MixedRadixToRing dom_default mix = None) /\
+  (forall ps mix, length mix <> length ps -> dom_MixedRadixToRing (dom_mk ps) mix = None).
+Lemma undefined_cases : Undefined_stmt.
+Proof.
+  split; [|split; [|split]].
+  - intros hr rs. reflexivity.
+  - intros rs. reflexivity.
+  - intros mix. reflexivity.
+  - intros ps mix Hl. unfold dom_MixedRadixToRing. destruct (dom_mk_wf ps) as [_ P]. rewrite P.
+    destruct ps as [|p ps]; [reflexivity|]. destruct (Nat.eqb_spec (length (p :: ps)) (length mix)); [congruence|reflexivity].
 Qed.
 
 (* ---------------------------------------------------------------- the two-modulus functor *)
@@ -583,5 +722,10 @@ Proof.
   split; [split|]; repeat constructor; try lia; reflexivity.
 Qed.
 Example end_to_end_example :
-  snd (int_RnsToRing (ieval FromCk CkEmpty (Icopy (Iprod (Irns (Imktt [7; 10; 9; 11]) [1; 1; 1; 1])))) [6; 0; 8; 3]) = 1070.
+  snd (int_RnsToRing false (ieval (isrc_repo false) (Icopy (Iprod (Irns (Imktt [7; 10; 9; 11]) [1; 1; 1; 1])))) [6; 0; 8; 3]) = Some 1070.
 Proof. vm_compute. reflexivity. Qed.
+Example end_to_end_any_example :
+  snd (int_RnsToRing true (ieval (isrc_repo true) (Iassign (Imk [3; 5]) (Imk [7; 10; 9; 11]))) [-1; 20; -1; 14]) = Some 1070.
+Proof. vm_compute. reflexivity. Qed.
+Example functor_hyps_example : 0 <= 2 < 3 /\ 0 < 5 /\ Z.gcd 3 5 = 1 /\ cra_reduce_fixed 3 5 2 1 = 11.
+Proof. repeat split; try lia. Qed.
